@@ -762,7 +762,18 @@ def _d1_function(ck, spmd, rule, rel, q, locs, nu_of):
             if not (isinstance(a, Assume) and spmd.expr_nonuniform(mod, fn, a.test, nu, cls)):
                 continue
             opp = [x for x in fi.cfg.succ.get(a.owner, []) if isinstance(x, Assume) and x is not a]
+            # a test inside a loop that the return is NOT part of: the ranks that take this
+            # arm LEAVE that loop (guard clause `if not c: break` of a `while True`, a
+            # `break` further down) and the others stay in it - the collectives of the loop
+            # are a question of its trip count, decided by .loops (loop condition, breaks)
+            left = []
+            p = mod.parent.get(a.owner)
+            while p is not None and p is not fn:
+                if isinstance(p, (ast.For, ast.While, ast.AsyncFor)) and not inside(mod, r, p):
+                    left.append(p)
+                p = mod.parent.get(p)
             later = [st for st in fi.cfg.nodes if st not in (ENTRY, EXIT) and not isinstance(st, Assume) and not inside(mod, st, a.owner)
+                     and not any(inside(mod, st, l) for l in left)
                      and has_coll(st) and any(fi.cfg.reachable(o, st) for o in opp)]
             ck.check(not later, rule + '.early-return', mod, r, q, u(r)[:80],
                      'no collective follows this rank-divergent return',
@@ -2569,17 +2580,105 @@ def _inline_local_call(fi, fn, call):
     return body(defs[0].body)
 
 
-def _mpi_arm(e):
-    """the value an expression takes in MPI mode: peel conditional
-    expressions on mpi_mode / world size."""
-    while isinstance(e, ast.IfExp):
-        if is_mpi_mode_test(e.test):
-            e = e.body
-        elif isinstance(e.test, ast.UnaryOp) and isinstance(e.test.op, ast.Not) and is_mpi_mode_test(e.test.operand):
-            e = e.orelse
+def _mode_flag(t):
+    """True / False if the atomic test `t` is the MPI-mode flag / its exact
+    negation (`mpi.size() == 1`, `mpi.size() <= 1`, `mpi.size() < 2`), else None."""
+    if is_mpi_mode_test(t):
+        return True
+    if isinstance(t, ast.Compare) and len(t.ops) == 1:
+        c = Cmp(t.left, type(t.ops[0]), t.comparators[0]).negated()
+        try:
+            neg = ast.fix_missing_locations(ast.Compare(left=c.lhs, ops=[c.op()], comparators=[c.rhs]))
+        except Exception:
+            return None
+        if is_mpi_mode_test(neg):
+            return False
+    return None
+
+
+def _test_atoms(t, out):
+    """the atomic conditions of a boolean test as {key: set of names}; the
+    MPI-mode flag is not an atom (it is a constant of the evaluation)."""
+    from ..patterns import canon_atom
+    if isinstance(t, ast.BoolOp):
+        for v in t.values:
+            _test_atoms(v, out)
+    elif isinstance(t, ast.UnaryOp) and isinstance(t.op, ast.Not):
+        _test_atoms(t.operand, out)
+    elif _mode_flag(t) is None:
+        if isinstance(t, ast.Compare) and len(t.ops) == 1:
+            key = canon_atom(Cmp(t.left, type(t.ops[0]), t.comparators[0]))[0]
         else:
+            key = u(t)
+        out[key] = {x.id for x in ast.walk(t) if isinstance(x, ast.Name)}
+    return out
+
+
+def _test_value(t, env):
+    """truth value of a boolean test in MPI mode under the assignment `env`
+    of its atomic conditions."""
+    from ..patterns import canon_atom
+    if isinstance(t, ast.BoolOp):
+        vals = [_test_value(v, env) for v in t.values]
+        return all(vals) if isinstance(t.op, ast.And) else any(vals)
+    if isinstance(t, ast.UnaryOp) and isinstance(t.op, ast.Not):
+        return not _test_value(t.operand, env)
+    m = _mode_flag(t)
+    if m is not None:
+        return m
+    if isinstance(t, ast.Compare) and len(t.ops) == 1:
+        key, pol = canon_atom(Cmp(t.left, type(t.ops[0]), t.comparators[0]))
+        return env[key] if pol else not env[key]
+    return env[u(t)]
+
+
+def _mentions_mode(t):
+    return any(isinstance(x, ast.expr) and _mode_flag(x) is not None for x in ast.walk(t))
+
+
+def mpi_reach(conds):
+    """Can the conditions [(test, polarity)] all hold in MPI mode?  Truth
+    table over the atomic conditions of the tests that mention the mode flag
+    (mpi_mode / world size > 1 := True; a condition that does not mention the
+    flag is taken to be independent of the mode).  'no': they imply the serial
+    mode; 'yes': they hold in MPI mode for some values of at most one further
+    condition per input (the remaining atoms speak about pairwise different
+    names, so every combination of their truth values occurs); 'maybe':
+    satisfiable in the table, but the atoms share operands (they need not be
+    independent) or there are too many of them."""
+    import itertools
+    rel = [(t, p) for t, p in conds if _mentions_mode(t)]
+    atoms = {}
+    for t, _ in rel:
+        _test_atoms(t, atoms)
+    keys = sorted(atoms, key=repr)
+    if len(keys) > 6:
+        return 'maybe'
+    sat = False
+    for vals in itertools.product((False, True), repeat=len(keys)):
+        env = dict(zip(keys, vals))
+        if all(bool(_test_value(t, env)) == bool(p) for t, p in rel):
+            sat = True
             break
-    return e
+    if not sat:
+        return 'no'
+    seen = set()
+    for k in keys:
+        if atoms[k] & seen:
+            return 'maybe'
+        seen |= atoms[k]
+    return 'yes'
+
+
+def top_arms(e):
+    """ifexp_arms for an expression that IS a (nested) conditional
+    expression: `A if c else B` evaluates c and then exactly one arm, so the
+    decomposition needs no purity of the arms; inside each arm the
+    conditionals in pure contexts are pulled out by ifexp_arms."""
+    if isinstance(e, ast.IfExp):
+        return [([(e.test, True)] + c, v) for c, v in top_arms(e.body)] + \
+               [([(e.test, False)] + c, v) for c, v in top_arms(e.orelse)]
+    return ifexp_arms(e)
 
 
 def _local_max_forms(P):
@@ -2682,6 +2781,14 @@ def d8_reductions(ck):
         if isinstance(s, ast.Assign) and isinstance(s.targets[0], ast.Tuple) and len(s.targets[0].elts) == 4 and isinstance(s.value, ast.Call) and \
                 isinstance(s.targets[0].elts[1], ast.Name):
             D = s.targets[0].elts[1].id
+    if D is None:
+        # the same result read by index: `out = iteration(...)` ... `X = out[1]`
+        for s in walk_local(loop):
+            if isinstance(s, ast.Assign) and len(s.targets) == 1 and isinstance(s.targets[0], ast.Name) and isinstance(s.value, ast.Subscript) and \
+                    const_value(s.value.slice) == 1 and isinstance(s.value.value, ast.Name) and not isinstance(s.value.slice, ast.Slice):
+                c, _ = value_call(fc, s.value.value, s)
+                if c is not None and not _pure(c):
+                    D = s.targets[0].id
     D = D or 'distances'
     if isinstance(radius, ast.Name):
         M = radius.id
@@ -2700,23 +2807,46 @@ def d8_reductions(ck):
             ck.missing(rs, 'kcenters: definition of `%s` not understood: %s' % (M, u(site)[:80]))
             continue
         nd += 1
-        atoms = path_atoms(fc, site)
-        if any(isinstance(c, tuple) and c[0] == 'expr' and is_mpi_mode_test(c[1]) and not c[2] for c, o in atoms):
+        # the conditions under which this definition executes (dominating branch
+        # assumptions, named conditions expanded) ...
+        path = []
+        for a in fc.cfg.dom.get(site, ()):
+            if isinstance(a, Assume):
+                t = a.test
+                if any(isinstance(x, ast.Name) and x.id != 'mpi_mode' for x in ast.walk(t)):
+                    t = expand(fc, t, a.owner, stop=('mpi_mode',))
+                path.append((t, a.polarity))
+        if mpi_reach(path) == 'no':
             ck.ok(rs, kc, site, u(site), 'serial arm')
             continue
-        e = xn(fc, v, site)
+        e = xn(fc, v, site, stop=(D,))
         if isinstance(e, ast.Call):
             inl = _inline_local_call(fc, f, e)
             if inl is not None:
                 e = norm(inl)
-        in_mpi_arm = any(isinstance(c, tuple) and c[0] == 'expr' and is_mpi_mode_test(c[1]) and c[2] for c, o in atoms)
-        arm = _mpi_arm(e)
-        if arm is e and not in_mpi_arm and not closed_over(e, {D}):
-            ck.missing(rs, 'kcenters: cannot see the MPI-mode value of the stopping radius in `%s`' % u(site)[:120])
-            continue
-        vv = classify(arm, ['mpi.ops.striped_array_max(%s)' % D], {D})
-        ck.decide(vv, rs, kc, site, 'kcenters', u(site)[:200], 'the stopping radius is the GLOBAL maximum in MPI mode (same on every rank)',
-                  'in MPI mode maxdist must be the all-reduced maximum mpi.ops.striped_array_max(%s) on every evaluation' % D)
+        # ... and the value as a decision list over its conditional expressions: EVERY arm
+        # that can be taken in MPI mode - whatever else its condition asks for (a cutoff
+        # that was given, a first iteration ...) - must be the all-reduced maximum
+        saw_mode = any(_mentions_mode(t) for t, _ in path)
+        for conds, arm in top_arms(e):
+            saw_mode = saw_mode or any(_mentions_mode(t) for t, _ in conds)
+            reach = mpi_reach(path + conds)
+            if reach == 'no':
+                continue
+            arm = norm(arm)
+            vv = classify(arm, ['mpi.ops.striped_array_max(%s)' % D], {D})
+            if vv[0] == 'far' and not saw_mode:
+                ck.missing(rs, 'kcenters: cannot see the MPI-mode value of the stopping radius in `%s`' % u(site)[:120])
+                continue
+            if vv[0] == 'near' and reach != 'yes':
+                vv = ('far', vv[1], vv[2])        # wrong value, but under conditions the table cannot show to be satisfiable in MPI mode
+            under = ' and '.join(('%s' if p else 'not (%s)') % u(t)[:60] for t, p in conds)
+            ck.decide(vv, rs, kc, site, 'kcenters', u(site)[:200] + ('  [arm under %s: %s]' % (under, u(arm)[:80]) if len(conds) > 1 or
+                                                                       (conds and not is_mpi_mode_test(conds[0][0])) else ''),
+                      'the stopping radius is the GLOBAL maximum in MPI mode (same on every rank)',
+                      'in MPI mode maxdist must be the all-reduced maximum mpi.ops.striped_array_max(%s) on every evaluation%s' %
+                      (D, '; this arm is taken in MPI mode when %s and holds `%s` (a rank-local value: the ranks leave the loop at different '
+                          'iterations)' % (under, u(arm)[:80]) if conds else ''))
     ck.floor(rs, nd, 2 if isinstance(radius, ast.Name) else 1, 'definitions of the stopping radius reaching the loop test of kcenters')
 
 
